@@ -520,3 +520,125 @@ func c12Identity(p *load.Prog, r *oblig.Run) {
 		}
 	}
 }
+
+// sortsInternal (R13.g): no code of the repository sorts, in place, a slice that a Document/node accessor handed
+// out from its own storage (a cached list, the children of a node). Sorting it is a write to the document made by
+// what looks like a read (rendering a page, printing a report): every later reader sees the records in another order.
+func sortsInternal(p *load.Prog, r *oblig.Run, rule string) {
+	r.Rule(rule, "no in-place sort of a slice handed out by a Document/node accessor from its own storage", 5)
+	returnsStorage := func(h *ssa.Function) bool {
+		if h == nil || len(h.Blocks) == 0 || h.Signature.Recv() == nil {
+			return false
+		}
+		for _, b := range h.Blocks {
+			ret, ok := b.Instrs[len(b.Instrs)-1].(*ssa.Return)
+			if !ok || len(ret.Results) == 0 {
+				continue
+			}
+			seen := map[ssa.Value]bool{}
+			var internal func(v ssa.Value) bool
+			internal = func(v ssa.Value) bool {
+				if seen[v] {
+					return false
+				}
+				seen[v] = true
+				switch x := v.(type) {
+				case *ssa.Phi:
+					for _, e := range x.Edges {
+						if internal(e) {
+							return true
+						}
+					}
+				case *ssa.ChangeType:
+					return internal(x.X)
+				case *ssa.Slice:
+					return internal(x.X)
+				case *ssa.UnOp:
+					if fa, ok := x.X.(*ssa.FieldAddr); ok && x.Op == token.MUL {
+						base := fa.X
+						// the receiver spilled to memory because a closure captured it
+						if ld, ok := base.(*ssa.UnOp); ok && ld.Op == token.MUL {
+							if al, ok := ld.X.(*ssa.Alloc); ok {
+								k := 0
+								for _, ref := range *al.Referrers() {
+									if s2, ok := ref.(*ssa.Store); ok && s2.Addr == ssa.Value(al) {
+										base, k = s2.Val, k+1
+									}
+								}
+								if k != 1 {
+									return false
+								}
+							}
+						}
+						_, isPrm := base.(*ssa.Parameter)
+						return isPrm
+					}
+					// a named result: what was stored into it
+					if al, ok := x.X.(*ssa.Alloc); ok && x.Op == token.MUL {
+						for _, ref := range *al.Referrers() {
+							if st, ok := ref.(*ssa.Store); ok && st.Addr == ssa.Value(al) && internal(st.Val) {
+								return true
+							}
+						}
+					}
+				}
+				return false
+			}
+			if internal(ret.Results[0]) {
+				return true
+			}
+		}
+		return false
+	}
+	n := 0
+	for _, fn := range p.Repo {
+		for _, c := range su.Calls(fn) {
+			cc := c.Common()
+			cal := cc.StaticCallee()
+			if cal == nil || cal.Pkg == nil || cal.Pkg.Pkg.Path() != "sort" || len(cc.Args) == 0 {
+				continue
+			}
+			switch cal.Name() {
+			case "Slice", "SliceStable", "Sort", "Stable", "Strings", "Ints":
+			default:
+				continue
+			}
+			n++
+			o := r.Add(rule, "sort in "+load.FuncName(fn), p.Pos(c.Pos()), "the slice that is sorted in place")
+			v := cc.Args[0]
+			for i := 0; i < 6; i++ {
+				switch x := v.(type) {
+				case *ssa.MakeInterface:
+					v = x.X
+				case *ssa.ChangeType:
+					v = x.X
+				case *ssa.UnOp:
+					// a local that the less function captured: assigned once
+					if al, ok := x.X.(*ssa.Alloc); ok && x.Op == token.MUL {
+						var st ssa.Value
+						k := 0
+						for _, ref := range *al.Referrers() {
+							if s2, ok := ref.(*ssa.Store); ok && s2.Addr == ssa.Value(al) {
+								st, k = s2.Val, k+1
+							}
+						}
+						if k == 1 {
+							v = st
+						}
+					}
+				}
+			}
+			src, _ := v.(*ssa.Call)
+			var h *ssa.Function
+			if src != nil {
+				h = src.Call.StaticCallee()
+			}
+			if h != nil && p.InRepo(h) && returnsStorage(h) {
+				o.Fail(load.FuncName(fn) + " sorts the slice it got from " + load.FuncName(h) + " in place, and that accessor hands out the object's own storage (a cached list / the child list), not a copy: the document is reordered by what should be a read - every later Families()/Nodes() and every view computed from it comes in the new order")
+			} else {
+				o.OK("a local, a copy, or the result of an accessor that builds a new slice")
+			}
+		}
+	}
+	_ = n
+}
